@@ -258,13 +258,50 @@ def h_muldiv(eng, op, ua, ub, autoconvert, form):
         eng.prove(Eq(r.magnitude[1], exp1[1]), "inplace-value-1")
 
 
-def h_number(eng, what, ua, autoconvert):
-    """bare number operands:  q*c, c*q, q/c, c/q, q+c, q-c, c-q"""
+def h_number(eng, what, ua, autoconvert, form="scalar"):
+    """bare number operands:  q*c, c*q, q/c, c/q, q+c, q-c, c-q; form 'inplace-array': the
+    in-place twins q*=c, q/=c, q+=c, q-=c on object arrays (same rule, element-wise)"""
     ureg, v = _setup(eng, autoconvert)
     x, c = eng.real("x"), eng.real("c")
     k, s, o = _so(v, ua)
     a = ureg.Quantity(x, ua)
     off = k == "O"
+    if form == "inplace-array":
+        import numpy as np
+
+        x2 = eng.real("x2")
+        arr = ureg.Quantity(np.array([x, x2], dtype=object), ua)
+        iop = {"q*c": operator.imul, "q/c": operator.itruediv, "q+c": operator.iadd, "q-c": operator.isub}[what]
+
+        def run():
+            nonlocal arr
+            arr = iop(arr, c)
+            return arr
+
+        if what in ("q*c", "q/c"):
+            if what == "q/c":
+                eng.assume(Not(Eq(c, 0)))
+                exp = ("err", OffsetUnitCalculusError) if off else ({ua: 1}, x / c)
+                exp2 = None if off else x2 / c
+            else:
+                exp = ("err", OffsetUnitCalculusError) if (off and not autoconvert) else ({ua: 1}, x * c)
+                exp2 = x2 * c
+            r = _check_outcome(eng, "i" + what, run, exp)
+            if r is None:
+                return
+            eng.prove(_units_equal(r._units, exp[0]), "i" + what + ":units")
+            eng.prove(Eq(r.magnitude[0], exp[1]), "i" + what + ":value-0")
+            eng.prove(Eq(r.magnitude[1], exp2), "i" + what + ":value-1")
+        else:
+            try:
+                r = run()
+            except DimensionalityError:
+                eng.prove(Not(Eq(c, 0)), "i" + what + ":error-only-for-nonzero")
+                return
+            eng.prove(Eq(c, 0), "i" + what + ":accepted-only-zero")
+            eng.prove(_units_equal(r._units, {ua: 1}), "i" + what + ":unit")
+            eng.prove(And(Eq(r.magnitude[0], x), Eq(r.magnitude[1], x2)), "i" + what + ":value")
+        return
     if what in ("q*c", "c*q"):
         exp = ("err", OffsetUnitCalculusError) if (off and not autoconvert) else ({ua: 1}, x * c)
         r = _check_outcome(eng, what, (lambda: a * c) if what == "q*c" else (lambda: c * a), exp)
@@ -537,6 +574,22 @@ def h_log(eng, unit, ref, scale, logbase, logfactor, autoconvert):
     eng.prove(close(back.magnitude, x), "log-round-trip")
     back2 = r2.to(ref)
     eng.prove(close(back2.magnitude, y), "log-round-trip-2")
+    # the in-place conversions of array quantities follow the same maps
+    import numpy as np
+
+    y2 = eng.real("y2") if eng.symbolic else float(eng.real("y2"))
+    eng.assume(y2 > 0)
+    dt = object if eng.symbolic else float
+    qa = ureg.Quantity(np.array([y, y2], dtype=dt), ref)
+    qa.ito(unit)
+    eng.prove(close(qa.magnitude[0], expect2), "log-from-reference-inplace-array[0]")
+    eng.prove(close(qa.magnitude[1], num(logfactor) * f_log(y2 / num(scale)) / lb), "log-from-reference-inplace-array[1]")
+    qb = ureg.Quantity(np.array([x, x], dtype=dt), unit)
+    try:
+        qb.ito(ref)
+    except OverflowError:
+        return
+    eng.prove(close(qb.magnitude[0], expect), "log-to-reference-inplace-array")
     # arithmetic that would be ambiguous is refused without autoconvert
     if not autoconvert:
         try:
@@ -594,6 +647,8 @@ def cases(tier, seed):
         for ua in ("degA", "kel", "rank", "delta_degB", "oth"):
             for ac in (False, True):
                 out.append(Case("H06.c-number", f"{what}:{ua}:ac={ac}", M, "h_number", {"what": what, "ua": ua, "autoconvert": ac}, opts=opts, validate=1))
+                if what in ("q*c", "q/c", "q+c", "q-c"):
+                    out.append(Case("H06.c-number", f"{what}:{ua}:ac={ac}:inplace-array", M, "h_number", {"what": what, "ua": ua, "autoconvert": ac, "form": "inplace-array"}, opts=opts, validate=1))
     for ua in ("degA", "degB", "kel", "rank", "delta_degA"):
         for e in (-2, -1, 0, 1, 2):
             for ac in (False, True):
